@@ -66,7 +66,9 @@ type Cfg struct {
 	ReqPerBlockPct     int
 	MaxGroupSize       uint64
 	CreationPeriod     uint64
-	Replicas           int // number of mirror replicas fed the same blocks
+	Replicas           int   // number of mirror replicas fed the same blocks
+	MempoolNoise       bool  // primary runs CheckTx on every tx before the block (replicas do not)
+	RestartEvery       int64 // last replica is restarted from its database every so many blocks
 	ReplicasConcurrent bool
 	GenesisExtra       func(w *sim.World, gs band.GenesisState)
 	NumVals            int
@@ -246,6 +248,9 @@ func NewHist(run *sim.Run, label string, caseID int, cfg Cfg, mons func(h *Hist)
 		w.AddMirror()
 	}
 	w.MirrorConcurrent = cfg.ReplicasConcurrent
+	if cfg.Replicas > 0 {
+		w.MempoolNoise, w.RestartEvery = cfg.MempoolNoise, cfg.RestartEvery
+	}
 	h := &Hist{W: w, Run: run, Rng: rng, Case: caseID, Cfg: cfg, TssParams: tp,
 		Trk: &Tracker{Signings: map[uint64]*SigningT{}, Period: cfg.SigningPeriod}, lazy: map[string]bool{}, sentSig: map[string]bool{}}
 	h.TW = New(w, w.Users[:cfg.NMembers])
